@@ -108,6 +108,55 @@ theorem inductive_lemma_justified (f base step : Formula) (h : inductiveLemma f 
     (hb : sat J base ρ) (hs : sat J step ρ) : sat J f ρ :=
   Outline.inductiveLemma_sound f base step h J ρ hb hs
 
+/-- **A definition introduces a predicate that occurs nowhere before it** (since fix d771171 also
+    not in an earlier lemma): a definition entry is accepted only if `checkDefinition` accepts it
+    against the taken predicates (the task's predicates and the earlier definitions) and its
+    predicate is not among the predicates `lem` of the lemmas seen so far; it then becomes taken. -/
+theorem definition_entry_is_fresh (m : PlaceholderMap) (po : ProofOutline) (taken lem : List Pred) (a : SAnn)
+    (po' : ProofOutline) (taken' lem' : List Pred) (hrole : a.role = .definition)
+    (h : outlineStep m (.ok (po, taken, lem)) a = .ok (po', taken', lem')) :
+    ∃ p, checkDefinition (a.replacePlaceholders m).formula taken = .ok p ∧ p ∉ taken ∧ p ∉ lem ∧
+      taken' = ins taken p ∧ lem' = lem := by
+  unfold outlineStep at h
+  have hr : (a.replacePlaceholders m).role = .definition := hrole
+  simp only [hr] at h
+  split at h
+  · rename_i p hdef
+    split at h
+    · cases h
+    · rename_i hnl
+      obtain ⟨_, _, _, _, _, _, hnt, _⟩ := definition_accepted_implies _ taken p hdef
+      refine ⟨p, hdef, ?_, hnl, ?_, ?_⟩
+      · rename_i hp _; exact hp ▸ hnt
+      · split at h <;> (injection h with h; injection h with _ h2; injection h2 with h2 _; exact h2.symm)
+      · split at h <;> (injection h with h; injection h with _ h2; injection h2 with _ h3; exact h3.symm)
+  · cases h
+  · cases h
+  · cases h
+
+/-- … and every lemma entry records its predicates, so that no later definition can define them. -/
+theorem lemma_entry_records_predicates (m : PlaceholderMap) (po : ProofOutline) (taken lem : List Pred) (a : SAnn)
+    (po' : ProofOutline) (taken' lem' : List Pred) (hrole : a.role = .lemma ∨ a.role = .inductiveLemma)
+    (h : outlineStep m (.ok (po, taken, lem)) a = .ok (po', taken', lem')) :
+    taken' = taken ∧ lem' = ext lem (a.replacePlaceholders m).formula.preds := by
+  unfold outlineStep at h
+  have hr : (a.replacePlaceholders m).role = .lemma ∨ (a.replacePlaceholders m).role = .inductiveLemma := hrole
+  rcases hr with hr | hr <;> simp only [hr] at h <;>
+    (split at h
+     · split at h <;> (injection h with h; injection h with _ h2; injection h2 with h2 h3; exact ⟨h2.symm, h3.symm⟩)
+     · cases h
+     · cases h
+     · cases h)
+
+/-- the former literal violation is now refused: `lemma: d(1). definition: forall X (d(X) <-> X = 1).` -/
+theorem lemma_before_definition_refused :
+    (match proofOutlineFrom
+      [⟨.lemma, .universal, "", .atomic (.atom ⟨"d", [.int (.num 1)]⟩)⟩,
+       ⟨.definition, .universal, "", .quant .all [⟨"X", .general⟩]
+          (.bin .iff (.atomic (.atom ⟨"d", [.var "X"]⟩)) (.atomic (.cmp (.var "X") [⟨.eq, .int (.num 1)⟩])))⟩]
+      [⟨"in", 1⟩] [] with
+    | .err .takenPredicate => true | _ => false) = true := by decide
+
 /-- Non-vacuity: an inductive lemma whose variable is also bound inside `F` and whose start value
     is negative is accepted and yields two obligations (kernel-evaluated). -/
 example : (match inductiveLemma (.quant .all [⟨"N", .integer⟩]
